@@ -162,7 +162,9 @@ def base_psbts(kit: Kit, rnd: random.Random, thorough: bool) -> list[tuple[Any, 
     from btclib.tx_builder import build_psbt
 
     out = []
-    mixes = [["p2wpkh", "p2wsh-p2ms", "p2tr"], ["p2pkh", "p2sh-p2wpkh"], ["p2tr", "p2tr"], ["p2sh-p2ms", "p2wpkh"], ["p2tr-tree", "p2tr-multi_a"]] + ([["p2wsh-p2ms-3", "p2pk"], ["p2sh-p2wsh-p2ms", "p2tr", "p2pkh"]] if thorough else [])
+    # (the last mix: one signer holds several keys of an input, so its answer adds several signatures to it)
+    mixes = [["p2wpkh", "p2wsh-p2ms", "p2tr"], ["p2pkh", "p2sh-p2wpkh"], ["p2tr", "p2tr"], ["p2sh-p2ms", "p2wpkh"], ["p2tr-tree", "p2tr-multi_a"],
+             ["p2wsh-p2ms-3", "p2sh-p2ms-8"]] + ([["p2wsh-p2ms-3", "p2pk"], ["p2sh-p2wsh-p2ms", "p2tr", "p2pkh"]] if thorough else [])
     for r, mix in enumerate(mixes):
         ins = [kit.input(t, 5 * r + k, 150_000 + k, k)[0] for k, t in enumerate(mix)]
         if any("p2tr-" in t for t in mix):              # the builder has no size estimate for a script path: the Creator and Updater by hand
@@ -266,6 +268,41 @@ def record_combines(run: Run, rnd: random.Random, thorough: bool, evs: list[dict
         res = outcome(lambda: combine([p, q]))
         evs.append({"op": "combine", "operands": [p.serialize(check_validity=False).hex(), q.serialize(check_validity=False).hex()], "outcome": "refused" if isinstance(res, str) else "ok",
                     "result": "" if isinstance(res, str) else res.serialize(check_validity=False).hex()})
+    # the same PSBT with one field of the transaction moved: a sequence (the identity in version 0, not in version 2), the lock time, an amount, an outpoint, the version
+    def moved(p: Any, what: str) -> Any:
+        q = copy.deepcopy(p)
+        if what == "sequence":
+            q.inputs[0].sequence = ((q.inputs[0].sequence if q.inputs[0].sequence is not None else 0xFFFFFFFF) ^ 1)
+        elif what == "last sequence":
+            q.inputs[-1].sequence = 0xFFFFFFFD if q.inputs[-1].sequence != 0xFFFFFFFD else 0xFFFFFFFC
+        elif what == "amount":
+            q.outputs[0].amount = (q.outputs[0].amount or 0) + 1
+        elif what == "outpoint":
+            q.inputs[0].output_index = (q.inputs[0].output_index or 0) + 1
+            q.inputs[0].non_witness_utxo = None
+        elif what == "tx version":
+            q.tx_version = 3 if q.tx_version != 3 else 2
+        elif what == "lock time":
+            if q.version == 0:
+                q.fallback_lock_time = (q.fallback_lock_time or 0) + 1
+            else:
+                q.fallback_lock_time = (q.fallback_lock_time or 0) + 1
+        return q
+
+    for p, _mix in bases[: (12 if thorough else 7)]:
+        for what in ("sequence", "last sequence", "amount", "outpoint", "tx version", "lock time"):
+            q = outcome(lambda: moved(p, what))
+            if isinstance(q, str):
+                continue
+            sq = outcome(lambda: q.serialize(check_validity=False))
+            if isinstance(sq, str) or isinstance(outcome(lambda: Psbt.parse(sq, check_validity=False)), str):
+                continue
+            for ops in ([p, q], [q, p], [p, q, p]):
+                res = outcome(lambda: combine(ops))
+                evs.append({"op": "combine", "operands": [o.serialize(check_validity=False).hex() for o in ops], "outcome": "refused" if isinstance(res, str) else "ok",
+                            "result": "" if isinstance(res, str) else res.serialize(check_validity=False).hex(), "moved": what})
+                stats["combines"] += 1
+                stats["refused"] += isinstance(res, str)
     return stats
 
 
